@@ -370,8 +370,11 @@ class Transformer(ast.NodeTransformer):
                                      kw_defaults=[], defaults=[])
                 return ast.Lambda(args=args, body=body)
             if isinstance(tgt, (ast.Tuple, ast.List)) and all(isinstance(e, ast.Name) for e in tgt.elts):
+                names = [e.id for e in tgt.elts]
+                # a name bound twice (such as `_`) keeps its last binding; earlier ones get a unique name
+                uniq = [n if n not in names[k + 1:] else f"__dup{k}" for k, n in enumerate(names)]
                 inner = ast.Lambda(
-                    args=ast.arguments(posonlyargs=[], args=[ast.arg(arg=e.id) for e in tgt.elts],
+                    args=ast.arguments(posonlyargs=[], args=[ast.arg(arg=n) for n in uniq],
                                        kwonlyargs=[], kw_defaults=[], defaults=[]), body=body)
                 outer_args = ast.arguments(posonlyargs=[], args=[ast.arg(arg="__x")], kwonlyargs=[],
                                            kw_defaults=[], defaults=[])
